@@ -3,6 +3,9 @@ import os
 
 import c04
 import c07
+import c07_lib
+import c13_lib
+import c17
 import emu_lib
 import emu_props
 import engine
@@ -88,20 +91,55 @@ def breakdown_cases(r, tabs, n):
     return out
 
 
-def run_extra(res, prep, tabs, tier):
-    """task-type PCF labels and breakdown traces: files self-check."""
+def task_type_script(sc, tabs):
+    """drv_emu script (text level) for the hierarchy of a task-type scenario: one loom,
+    one CPU per thread (phyid = index), task types per process in creation order.
+    drv_emu has no task layer (`noHook`), so only the .pcf / .row text is taken."""
+    allth = [t for pr in sc.procs for t in pr["threads"]]
+    sysd = emu_lib.Sys([("node0", [(pr["pid"], list(pr["threads"])) for pr in sc.procs], list(range(len(allth))))],
+                       {"ovni": tabs["ovni"]["version"]})
+    appids = []
+    for (li, pid, tid) in sysd.threads:
+        appids.append([pr["appid"] for pr in sc.procs if pr["pid"] == pid][0])
+    procs = sorted(sc.procs, key=lambda pr: pr["pid"])
+    tts = []
+    for (pid, e) in sc.events:
+        if e[0] == "type":
+            pi = [k for k, pr in enumerate(procs) if pr["pid"] == pid][0]
+            lab = c07_lib.type_label(e[2], e[3])
+            tts.append((ord(sc.model), pi, c07_lib.gid_of_label(lab), lab))
+    lines = ["reset"] + ["thread %d %d %d" % (tid, pid, li) for (li, pid, tid) in sysd.threads]
+    lines += ["cpu %d %d %d" % (li, idx, virt) for (li, idx, virt, phy) in sysd.cpus]
+    lines.append("enable 79,%d 1" % ord(sc.model))
+    return c13_lib.pv_lines(sysd, lines, appids=appids, tasktypes=tts)
+
+
+def run_extra(res, prep, tabs, tier, text):
+    """task-type PCF labels and breakdown traces: files self-check; task types: .pcf / .row text."""
     import shutil
     from ovnitrace import Scratch, run_emu, verdict, write_trace
     r = vcommon.rng("c13x")
     found = False
     n1, n2 = (60, 60) if tier == "quick" else (600, 600)
+    tcases = task_type_cases(r, tabs, n1)
+    tlines, tspans = [], []
+    for sc in tcases:
+        ls = task_type_script(sc, tabs)
+        tspans.append((len(tlines), len(tlines) + len(ls)))
+        tlines += ls
+    _, tout, _ = engine.run_lines(engine.exe("drv_emu"), tlines, timeout=3000)
     with Scratch("c13x") as d:
-        for k, sc in enumerate(task_type_cases(r, tabs, n1)):
+        for k, sc in enumerate(tcases):
             streams, clocks, base = c07.scenario_streams(sc, tabs)
             td = os.path.join(d, "t")
             write_trace(td, streams)
             rc, err = run_emu(prep.bdir, td, ["-l"])
             v = verdict(rc, err)
+            if v == "ok":
+                a, b = tspans[k]
+                mf = c13_lib.model_files(tout[b - 1]) if b - 1 < len(tout) else None
+                text.compare("task-types", td, mf, "\n".join(tlines[a:b]), emu_lib.pv_selfcheck(td),
+                             only=("thread.pcf", "cpu.pcf", "thread.row", "cpu.row"))
             res.case("task-types:%d:%s" % (k, sc.model) + repr(sc.events)[:2000])
             res.dist("extra:task-types:" + v)
             probs = emu_lib.pv_selfcheck(td) if v == "ok" else ([] if v == "reject" else ["ovniemu " + v])
@@ -129,24 +167,142 @@ def run_extra(res, prep, tabs, tier):
     return found
 
 
+class TextTie:
+    """Byte-for-byte comparison of the model's files with ovniemu's; differences are
+    correspondence breaks (a failing independent oracle on the same files makes the
+    caller report a violation with the trace as replay)."""
+
+    def __init__(self, res):
+        self.res = res
+        self.stats = {"traces": 0, "files": 0, "bytes": 0, "prv_lines": 0, "differences": 0, "model_has_no_text": 0}
+        self.by_group = {}
+
+    def compare(self, group, tracedir, mfiles, script, oracle_probs, only=None):
+        self.stats["traces"] += 1
+        self.by_group[group] = self.by_group.get(group, 0) + 1
+        if mfiles is None:
+            self.stats["model_has_no_text"] += 1
+            self.brk(group + ": the model produced no text for a trace ovniemu accepts", script, oracle_probs)
+            return
+        diffs = c13_lib.compare_files(tracedir, mfiles, only)
+        names = [n for n in c13_lib.FILES if only is None or n in only]
+        self.stats["files"] += len(names)
+        self.stats["bytes"] += sum(len(mfiles[n]) for n in names)
+        self.stats["prv_lines"] += sum(mfiles[n].count(b"\n") - 1 for n in names if n.endswith(".prv"))
+        for (n, what) in diffs:
+            self.stats["differences"] += 1
+            self.brk(group + ": " + what, script, oracle_probs)
+
+    def brk(self, what, script, oracle_probs):
+        self.res.cov.setdefault("correspondence_breaks", []).append(
+            {"what": "text: " + what + (" [independent oracle on the same files: " + "; ".join(oracle_probs[:2]) + "]"
+                                        if oracle_probs else ""), "script": script[:1500]})
+
+
+def text_script(sysd, events):
+    return c13_lib.pv_lines(sysd, emu_lib.model_lines(sysd, events, True))
+
+
+def text_models(cases):
+    """Run the text-level driver on every case: {text-level script (it names the physical CPU ids and the
+    application ids, which the plain script does not): (files or None, script)}"""
+    lines, spans = [], []
+    for (sysd, events, exp, why) in cases:
+        ls = text_script(sysd, events)
+        spans.append((len(lines), len(lines) + len(ls)))
+        lines += ls
+    _, out, _ = engine.run_lines(engine.exe("drv_emu"), lines, timeout=3000)
+    tm = {}
+    for (a, b) in spans:
+        script = "\n".join(lines[a:b])
+        tm[script] = (c13_lib.model_files(out[b - 1]) if b - 1 < len(out) else None, script)
+    return tm
+
+
+def run_mark_text(res, prep, tier, text):
+    """Mark types (C17's generator: consistent and conflicting definitions, labels beyond int):
+    six files byte for byte on every accepted trace."""
+    import shutil
+    from concurrent.futures import ThreadPoolExecutor
+    from ovnitrace import Scratch, run_emu, verdict, write_trace
+    r = vcommon.rng("c13m")
+
+    class Quiet:
+        def dist(self, k, n=1):
+            pass
+    n = 120 if tier == "quick" else 1500
+    cases = [c17.gen_emu_case(r, Quiet()) for _ in range(n)]
+    lines, spans = [], []
+    for c in cases:
+        base = [l for l in c17.model_lines_with_marks(c) if l != "pcf"]
+        ls = c13_lib.pv_lines(c.sysd, base)
+        spans.append((len(lines), len(lines) + len(ls)))
+        lines += ls
+    _, out, _ = engine.run_lines(engine.exe("drv_emu"), lines, timeout=3000)
+    found = False
+    with Scratch("c13m") as d:
+        def one(i):
+            c = cases[i]
+            td = os.path.join(d, "t%d" % i)
+            streams = emu_lib.build_streams(c.sysd, c.events)
+            c17.write_marks_into(streams, c)
+            write_trace(td, streams)
+            rc, err = run_emu(prep.bdir, td, ["-l"])
+            return td, verdict(rc, err)
+        with ThreadPoolExecutor(max_workers=vcommon.NCPU) as ex:
+            impl = list(ex.map(one, range(len(cases))))
+        for i, c in enumerate(cases):
+            td, v = impl[i]
+            a, b = spans[i]
+            script = "\n".join(lines[a:b])
+            res.case("marks-text:" + script)
+            res.dist("marks-text:" + v)
+            if v == "ok":
+                # a mark value need not have a label (the label table of a mark type is optional)
+                probs = [p for p in emu_lib.pv_selfcheck(td) if "has no label" not in p]
+                text.compare("marks", td, c13_lib.model_files(out[b - 1]) if b - 1 < len(out) else None, script, probs)
+                if probs:
+                    found = True
+                    res.violation("c13:marks:" + probs[0][:50].replace(" ", "_"), "; ".join(probs[:3]),
+                                  script + "\n# " + "\n# ".join(probs[:5]))
+            shutil.rmtree(td, ignore_errors=True)
+    return found
+
+
 def check(res, tier, replay=None):
-    res.cov["rule"] = ("accepted (and rejected) traces over all table-driven models, 1-2 looms, several processes/threads/CPUs, "
-                       "from the mixed history generator; for every accepted trace independent parsers check thread/cpu "
+    res.cov["rule"] = ("accepted (and rejected) traces over all table-driven models, 1-2 looms, several processes/threads/CPUs "
+                       "(8% wide hierarchies: 3-4 looms, 9-12 threads, up to 11 CPUs with sparse ids), from the mixed history "
+                       "generator; for every accepted trace independent parsers check thread/cpu "
                        ".prv (non-decreasing time, rows in range, header duration = last event time, declared row count), "
                        ".pcf (every type used is declared, every non-zero value of a type with a value table is labelled) and "
                        ".row (count and names in the documented order); the Lean reference emulator must produce the same "
-                       "timelines. non-trivial = at least one event; distinct by script")
+                       "timelines. TEXT LEVEL: for every accepted trace of the mixed generator and of the mark generator (C17's: "
+                       "mark types with labels up to 2^62) the six files thread/cpu .prv .pcf .row printed by the Lean model "
+                       "(Emu/PvLines + Emu/PvText through drv_emu `pvmode`/`pvtext`) are compared BYTE FOR BYTE with the files "
+                       "ovniemu wrote - no canonicalisation, the line order inside one timestamp included; for the multi-process "
+                       "task-type traces only .pcf and .row (drv_emu has no task layer, so their .prv is not modelled); the "
+                       "breakdown traces (-b) are self-checked only. non-trivial = at least one event; distinct by script")
     prep = engine.prepare(res, drivers=("drv_emu",))
-    proved = vcommon.prove(res, "C13")
+    proved = vcommon.prove(res, ["C13", "C13Text"])
     found = False
     if prep.bdir and prep.driver_ok:
         r = vcommon.rng("c13")
         tabs = emu_props.load_tables()
         n = 450 if tier == "quick" else 6000
         cases = [emu_props.gen_mixed(r, res, tabs, p_illegal=0.08, maxlen=50) for _ in range(n)]
-        found = c04.run_cases(res, prep, cases, "c13", None, post=emu_lib.pv_oracle)
-        found = run_extra(res, prep, tabs, tier) or found
+        text = TextTie(res)
+        tm = text_models(cases)
+
+        def post(tracedir, sysd, events):
+            probs = emu_lib.pv_oracle(tracedir, sysd, events)
+            mf, script = tm.get("\n".join(text_script(sysd, events)), (None, ""))
+            text.compare("mixed" + (":wide" if len(sysd.looms) > 2 else ""), tracedir, mf, script, probs)
+            return probs
+        found = c04.run_cases(res, prep, cases, "c13", None, post=post)
+        found = run_mark_text(res, prep, tier, text) or found
+        found = run_extra(res, prep, tabs, tier, text) or found
         res.cov["accepted_traces_checked"] = res.cov["distribution"].get("ovniemu:ok", 0)
+        res.cov["text_tie"] = dict(text.stats, traces_by_group=text.by_group)
         for b in res.cov.get("correspondence_breaks", [])[:3]:
             proved = False
             res.failed_obligations = getattr(res, "failed_obligations", []) + ["correspondence emu: " + b["what"] + "\n" + b["script"]]
